@@ -16,6 +16,7 @@ import (
 // at an arbitrary point (critical hook at before_STOP_ACTIVITY-1 / +1 or leave_RUNNING+1, or the task part) and
 // left the environment RUNNING with, depending on the point, the end-of-run stamp already set. Whatever the
 // history, when the environment is DONE both end stamps are set, once, and the four stamps are ordered.
+//
 //verif:entry HarnessTeardownWhileRunning unwind=96 conform=12 preempt=0 timers=lazy reach=straight,after-failed-stop stub=github.com/AliceO2Group/Control/common/utils.TimeTrack nosched=github.com/AliceO2Group/Control/core/the.mu steps=8000000
 func HarnessTeardownWhileRunning() {
 	events := make(chan event.Event, 16)
@@ -66,5 +67,38 @@ func HarnessTeardownWhileRunning() {
 		vrt.Reach("straight")
 	} else {
 		vrt.Reach("after-failed-stop")
+	}
+}
+
+// A forced teardown requested while START_ACTIVITY is in flight: the two are executed one after the other; if the
+// run had started when the environment was torn down, its end stamps are set (and ordered) like those of any run.
+//verif:entry HarnessTeardownRacingStart unwind=96 preempt=2 timers=lazy reach=run-ended,no-run stub=github.com/AliceO2Group/Control/common/utils.TimeTrack nosched=github.com/AliceO2Group/Control/core/the.mu steps=8000000
+func HarnessTeardownRacingStart() {
+	events := make(chan event.Event, 16)
+	var world *task.VerifWorld
+	world = task.VerifNewWorld(nil, events, func(cmd controlcommands.MesosCommand, rcv controlcommands.MesosCommandTarget) error {
+		world.Reply(cmd, rcv, nil)
+		return nil
+	})
+	rec := &fenvRec{}
+	env := fenvNew(&fenvConf{}, rec, "CONFIGURED", nil)
+	envs := NewEnvManager(world.M, events)
+	envs.m[env.id] = env
+	envs.pendingStateChangeCh[env.id] = env.stateChangedCh
+	tm := fenvTaskman(rec, env, nil)
+	started, torn := make(chan error, 1), make(chan error, 1)
+	go func() { started <- env.TryTransition(NewStartActivityTransition(tm)) }()
+	go func() { torn <- envs.TeardownEnvironment(env.id, true) }()
+	startErr, tearErr := <-started, <-torn
+	vrt.Assert(tearErr == nil && env.CurrentState() == "DONE", "forced-teardown-succeeds")
+	e := c10Take(env, "end")
+	if startErr == nil {
+		// the run began before the teardown: it is ended by it
+		vrt.Assert(e.ts[0] != "" && e.ts[1] != "", "started-run-has-its-start-stamps")
+		vrt.Assert(e.ts[2] != "" && e.ts[3] != "", "end-of-run-timestamps-set-however-the-run-ends")
+		vrt.Assert(c10Num(e.ts[0]) <= c10Num(e.ts[1]) && c10Num(e.ts[1]) <= c10Num(e.ts[2]) && c10Num(e.ts[2]) <= c10Num(e.ts[3]), "run-timestamps-are-ordered")
+		vrt.Reach("run-ended")
+	} else {
+		vrt.Reach("no-run")
 	}
 }
